@@ -38,7 +38,13 @@ CLAIM = dict(
           "numbers) and to accept the model's outputs. Tied to the code by running the real MachineController against a "
           "simulated machine whose reply bytes are produced by the Lean machine specification, exact comparison with the "
           "Lean model of the decoding code (incl. a batch of __contains__ queries per description), and the Lean property "
-          "predicates evaluated on the implementation's own outputs."),
+          "predicates evaluated on the implementation's own outputs. SESSIONS: besides the single-probe stream (fresh "
+          "controller per probe), one controller makes 2-6 probes (console buffer, status, chip info, router counters, "
+          "P2P table, system info, sv / vcpu struct fields) addressed to different chips whose system variables "
+          "(iobuf_size, vcpu_base, p2p_dims, sdram_sys, rtr_copy, ...) and contents differ, with new console output, state "
+          "changes and re-boots with other sizes in between; every result must be what the Lean specification says for "
+          "that chip at that moment (the decoders' model is a function of that chip's memory only), so a value kept from "
+          "an earlier probe is reported as `probe-depends-on-earlier-probe` with the whole session as replay."),
     design="3/C14",
     note=("Proved relative to the Lean machine specification (layout of the info word, P2P packing, vcpu block, IOBUF "
           "header, sver reply) written from the layouts the code documents; only the bytes concerned are constrained "
@@ -61,13 +67,15 @@ THEOREMS = ["consts_documented", "chipinfo_roundtrip", "p2p_roundtrip", "p2p_tab
             "status_block", "processor_status_exact", "p2p_keys_nodup", "get_system_info_exact",
             "probe_to_machine_exact", "contains_exact", "links_cores_enumerate", "target_lengths_exact",
             "probe_views_exact", "sysinfo_oracle_exact", "reservations_oracle_exact", "dead_oracle_exact",
-            "machine_oracle_exact", "links_cores_once"]
+            "machine_oracle_exact", "links_cores_once", "struct_field_exact"]
 
 RULE = ("cases = machine states: (system) P2P dimensions 1..12 x 1..12 and sparse 255-wide/high tables, listed / "
         "unlisted / unresponsive (silent or error-code) / ghost chips, per-chip core counts, state patterns shared by "
         "every chip and chip-specific, link subsets, free-memory figures at edge values, Ethernet details; (direct) "
         "SystemInfo objects built directly; (chip) single info replies over full field widths incl. malformed ones; "
-        "(core) vcpu block, IOBUF chains of 0-4 blocks, router counters; (sver) both version encodings. non-trivial = "
+        "(core) vcpu block, IOBUF chains of 0-4 blocks, router counters; (sver) both version encodings; (session) one "
+        "controller, 2-4 chips with different system variables, 2-6 probes with console output / state changes / "
+        "re-boots between them. non-trivial = session probing >= 2 chips, "
         "system/direct case with >= 2 described chips and a busy non-monitor core or a dead chip, chip case in the "
         "valid domain, core case with >= 1 block, sver case in the string encoding; distinct = distinct canonical JSON")
 
@@ -118,16 +126,24 @@ def run_controller(machine, fn, silent=(), rc_chips=None, n_tries=3):
     net = simnet.Net(machine.handle, scr)
     with simnet.installed(net):
         mc = simmachine.make_controller(net, n_tries=n_tries, timeout=2.0)
-        try:
-            return {"ok": fn(mc)}
-        except sc.SCPError as e:
-            return {"err": "SCPError"}
-        except ValueError as e:
-            return {"err": "UnicodeDomain" if isinstance(e, UnicodeError) else "ValueError"}
-        except struct.error:
-            return {"err": "struct.error"}
-        except AssertionError:
-            return {"err": "AssertionError"}
+        return guard(lambda: fn(mc))
+
+
+def guard(fn):
+    """{"ok": fn()} or the exception mapped to the model's error enumeration"""
+    from rig.machine_control import scp_connection as sc
+    try:
+        return {"ok": fn()}
+    except sc.SCPError:
+        return {"err": "SCPError"}
+    except ValueError as e:
+        return {"err": "UnicodeDomain" if isinstance(e, UnicodeError) else "ValueError"}
+    except struct.error:
+        return {"err": "struct.error"}
+    except AssertionError:
+        return {"err": "AssertionError"}
+    except (KeyError, IndexError, TypeError) as e:
+        return {"err": type(e).__name__}
 
 
 # --------------------------------------------------------------------------- canonical forms
@@ -400,16 +416,22 @@ def ascii_text(rng, n, alphabet=b"abcXYZ 019_-/&.\t"):
     return [rng.choice(alphabet) for _ in range(n)]
 
 
-def gen_core(rng):
-    size = rng.choice([4, 16, 60, 252, 256, 1000, 16384]) if rng.random() < 0.9 else 4 * rng.randrange(1, 200)
+def gen_blocks(rng, size, ascii_only=False):
     nblocks = rng.choice([0, 1, 1, 2, 3, 4])
     blocks = []
     for i in range(nblocks):
         ln = rng.choice([0, 1, size - 1, size, size, rng.randrange(size + 1), size + 5, 2 ** 32 - 1])
-        data = ascii_text(rng, size) if rng.random() < 0.8 else [rng.randrange(256) for _ in range(size)]
+        data = ascii_text(rng, size) if ascii_only or rng.random() < 0.8 else [rng.randrange(256) for _ in range(size)]
         blocks.append({"addr": 0x60000000 + 0x100000 * i + 4 * rng.randrange(1, 1000), "time": edge(rng, 2 ** 32),
                        "ms": edge(rng, 2 ** 32), "len": ln, "data": data})
     rng.shuffle(blocks)
+    return blocks
+
+
+def gen_core(rng, size=None, session=False):
+    if size is None:
+        size = rng.choice([4, 16, 60, 252, 256, 1000, 16384]) if rng.random() < 0.9 else 4 * rng.randrange(1, 200)
+    blocks = gen_blocks(rng, size, ascii_only=session and rng.random() < 0.8)
     name = ascii_text(rng, rng.choice([0, 1, 5, 15, 16]), b"abcdefXYZ_0189")
     st = {"registers": [edge(rng, 2 ** 32) for _ in range(8)], "program_state_register": edge(rng, 2 ** 32),
           "stack_pointer": edge(rng, 2 ** 32), "link_register": edge(rng, 2 ** 32),
@@ -426,13 +448,122 @@ def gen_core(rng):
             "diag": [edge(rng, 2 ** 32) for _ in range(16)], "buf": rng.choice([256, 256, 128, 64, 512]),
             "malform": None}
     r = rng.random()
-    if r < 0.06:
+    if session:
+        pass
+    elif r < 0.06:
         case["malform"] = "cpu_state"
         st["cpu_state"] = rng.choice([12, 13, 14, 16, 200, 255])
     elif r < 0.12:
         case["malform"] = "rt_code"
         st["rt_code"] = rng.choice([21, 22, 100, 255])
     return case
+
+
+# --------------------------------------------------------------------------- sessions
+SESSION_OPS = ["iobuf_bytes", "iobuf", "status", "chip_info", "diag", "p2p", "system_info", "sv", "vcpu"]
+SESSION_FAMILIES = [["iobuf_bytes", "iobuf"], ["iobuf_bytes", "iobuf"], ["status", "vcpu"], ["chip_info", "system_info"],
+                    ["diag"], ["p2p", "system_info"], ["sv"], ["vcpu", "iobuf_bytes"]]
+SESSION_SIZES = [4, 16, 60, 64, 128, 252, 256, 1000]
+SV_NAMES = ["iobuf_size", "vcpu_base", "p2p_dims", "sdram_sys", "rtr_copy", "num_cpus", "sdram_base", "sysram_base",
+            "sys_heap", "sdram_heap", "sysram_heap", "sys_bufs", "hop_table", "alloc_tag", "rtr_free", "app_data",
+            "shm_buf", "p2p_addr", "eth_addr", "p2p_root", "unix_time", "cpu_clk", "board_info", "fr_copy"]
+VCPU_NAMES = {"cpu_state": "cpu_state", "rt_code": "rt_code", "time": "time", "sw_count": "sw_count",
+              "iobuf": "iobuf_address", "app_id": "app_id", "phys_cpu": "phys_cpu", "lr": "link_register",
+              "sp": "stack_pointer", "user0": ("user_vars", 0), "user3": ("user_vars", 3), "r3": ("registers", 3)}
+_SV_WIDTH = {}
+
+
+def sv_width(name):
+    if not _SV_WIDTH:
+        from harness import common
+        from harness.gen.c14 import parse_struct
+        for f in parse_struct(common.REPO)["sv"]["fields"]:
+            _SV_WIDTH.setdefault(f[0], f[2])
+    return _SV_WIDTH[name]
+
+
+def gen_epoch(rng, coords, size, vbase, tmpl, clear):
+    """everything one chip holds at one moment: its system variables, one core's vcpu block / console chain /
+    router counters, its answer to `info` and its P2P table"""
+    e = gen_core(rng, size=size, session=True)
+    e = {k: e[k] for k in ("p", "vcpu_base", "iobuf_size", "status", "sw_top", "name16", "pad", "blocks", "diag")}
+    e["vcpu_base"] = vbase
+    e["sv"] = [[n, edge(rng, 256 ** sv_width(n))] for n in SV_NAMES[3:]]
+    e["info"] = gen_chip_state(rng, tmpl, sorted(rng.sample(range(1, 18), rng.choice([0, 1, 2]))))
+    w, h = rng.randrange(1, 6), rng.choice([1, 2, 3, 4, 5, 8, 9])
+    p2p = {}
+    for xy in coords:
+        if rng.random() < 0.8:
+            p2p[xy] = rng.choice([0, 1, 2, 3, 4, 5, 7])
+    for _ in range(rng.randrange(0, 4)):
+        p2p[(rng.randrange(w + 1), rng.randrange(h + 1))] = rng.choice([0, 2, 6, 7])
+    if not any(x < w and y < h and r != 6 for (x, y), r in p2p.items()):
+        p2p[(0, 0)] = 1
+    e["p2p"] = {"dim_w": w, "dim_h": h, "p2p": sorted([x, y, r] for (x, y), r in p2p.items())}
+    e["clear"] = clear
+    return e
+
+
+def gen_session(rng):
+    """one controller, 2-6 probes addressed to different chips whose system variables differ, with console
+    output / state changes and re-boots (all sizes change) between probes"""
+    import copy
+    n = rng.choice([2, 2, 3, 4])
+    coords = rng.sample([(x, y) for x in range(4) for y in range(3)], n)
+    tmpl = gen_template(rng)
+
+    def fresh_params():
+        sizes = rng.sample(SESSION_SIZES, n)
+        if rng.random() < 0.5:
+            sizes.sort()
+        bases = [0xe5007000 + 0x400 * k + 4 * rng.randrange(64) for k in rng.sample(range(8), n)]
+        return sizes, bases
+    sizes, bases = fresh_params()
+    chips = [{"x": xy[0], "y": xy[1], "epochs": [gen_epoch(rng, coords, sizes[i], bases[i], tmpl, True)]}
+             for i, xy in enumerate(coords)]
+    cur = [0] * n
+    family = rng.choice(SESSION_FAMILIES) if rng.random() < 0.7 else SESSION_OPS
+    steps = []
+    order = list(range(n))
+    rng.shuffle(order)
+    for k in range(rng.randrange(2, 7)):
+        st = {"set": [], "mut": None}
+        target = order[k % n] if rng.random() < 0.8 else rng.randrange(n)
+        if k > 0 and rng.random() < 0.35:
+            mut = rng.choice(["print", "print", "state", "reboot"])
+            st["mut"] = mut
+            if mut == "reboot":
+                sizes, bases = fresh_params()
+                for i in range(n):
+                    chips[i]["epochs"].append(gen_epoch(rng, coords, sizes[i], bases[i], tmpl, True))
+                    cur[i] = len(chips[i]["epochs"]) - 1
+                    st["set"].append([i, cur[i]])
+            else:
+                i = rng.randrange(n)
+                e = copy.deepcopy(chips[i]["epochs"][cur[i]])
+                e["clear"] = False
+                if mut == "print":
+                    e["blocks"] = gen_blocks(rng, e["iobuf_size"], ascii_only=rng.random() < 0.8)
+                else:
+                    e["status"]["cpu_state"] = rng.choice(VALID_STATES)
+                    e["status"]["rt_code"] = rng.randrange(21)
+                    e["status"]["time"] = edge(rng, 2 ** 32)
+                    e["info"]["states"] = gen_states(rng, [])
+                    e["diag"] = [edge(rng, 2 ** 32) for _ in range(16)]
+                chips[i]["epochs"].append(e)
+                cur[i] = len(chips[i]["epochs"]) - 1
+                st["set"].append([i, cur[i]])
+                if rng.random() < 0.7:
+                    target = i
+        st["chip"] = target
+        st["op"] = rng.choice(family) if rng.random() < 0.8 else rng.choice(SESSION_OPS)
+        if st["op"] == "sv":
+            st["name"] = rng.choice(SV_NAMES[:6] + SV_NAMES)
+        elif st["op"] == "vcpu":
+            st["name"] = rng.choice(sorted(VCPU_NAMES))
+        steps.append(st)
+    return {"kind": "session", "chips": chips, "steps": steps, "root": rng.randrange(n),
+            "buf": rng.choice([256, 256, 128, 64, 512])}
 
 
 def gen_sver(rng):
@@ -493,6 +624,194 @@ def malformed_reply(rep, mal):
     return rep
 
 
+CORE_FIELDS = ("p", "vcpu_base", "iobuf_size", "status", "sw_top", "name16", "pad", "blocks", "diag")
+SESSION_KEYS = {"iobuf": "iobuf-wrong", "iobuf_bytes": "iobuf-wrong", "status": "status-wrong",
+                "chip_info": "chip-info-wrong", "diag": "router-counters-wrong", "p2p": "system-info-wrong",
+                "system_info": "system-info-wrong", "sv": "struct-field-wrong", "vcpu": "struct-field-wrong"}
+
+
+def session_spec_reqs(L, c):
+    """(slot, request): the Lean machine specification lays out every epoch of every chip"""
+    for ci, ch in enumerate(c["chips"]):
+        for ek, e in enumerate(ch["epochs"]):
+            yield ("img", ci, ek, "core"), L("spec_core", **{f: e[f] for f in CORE_FIELDS})
+            yield ("img", ci, ek, "info"), L("spec_info", **e["info"])
+            yield ("img", ci, ek, "p2p"), L("spec_p2p", chips=[], **e["p2p"])
+            yield ("img", ci, ek, "sv"), L("spec_sv", fields=e["sv"])
+
+
+def session_image(w, ci, ek):
+    im = w["img"][(ci, ek)]
+    return im["core"]["mem"] + im["p2p"]["mem"] + im["sv"]["mem"]
+
+
+def session_apply(m, c, w, ci, ek):
+    ch = c["chips"][ci]
+    xy = (ch["x"], ch["y"])
+    if ch["epochs"][ek]["clear"]:
+        m.mem[xy] = {}                      # re-boot: nothing of the previous life remains
+    for addr, data in session_image(w, ci, ek):
+        m.poke(xy[0], xy[1], addr, bytes(data))
+    m.info[xy] = w["img"][(ci, ek)]["info"]
+
+
+def session_op(c, w, st, cur):
+    """the probe actually made: get_iobuf only for text that is ASCII (see CLAIM: UTF-8 out of scope)"""
+    op = st["op"]
+    if op == "iobuf" and not all(b < 128 for b in w["img"][(st["chip"], cur[st["chip"]])]["core"]["text"]):
+        op = "iobuf_bytes"
+    return op
+
+
+def session_probe(mc, c, w, st, cur):
+    ch = c["chips"][st["chip"]]
+    x, y = ch["x"], ch["y"]
+    p = ch["epochs"][cur[st["chip"]]]["p"]
+    op = session_op(c, w, st, cur)
+    if op == "iobuf_bytes":
+        return list(mc.get_iobuf_bytes(p, x, y))
+    if op == "iobuf":
+        return list(mc.get_iobuf(p, x, y).encode("utf-8"))
+    if op == "status":
+        return status_json(mc.get_processor_status(p, x, y))
+    if op == "chip_info":
+        return ci_json(mc.get_chip_info(x, y))
+    if op == "diag":
+        return [int(v) for v in mc.get_router_diagnostics(x, y)]
+    if op == "p2p":
+        return sorted([int(k[0]), int(k[1]), int(v)] for k, v in mc.get_p2p_routing_table(x, y).items())
+    if op == "system_info":
+        return si_json(mc.get_system_info(x, y))
+    if op == "sv":
+        return int(mc.read_struct_field("sv", st["name"], x, y))
+    if op == "vcpu":
+        return int(mc.read_vcpu_struct_field(st["name"], x, y, p))
+    raise KeyError(op)
+
+
+def run_session(c, w, only=None):
+    """the session on ONE controller (or, with `only`, the machine brought to the state of step `only` and that
+    single probe made by a fresh controller); returns results and the epoch of every chip at each step"""
+    root = c["chips"][c["root"]]
+    m = ProbeMachine(root=(root["x"], root["y"]), buffer_size=c["buf"])
+    cur = [0] * len(c["chips"])
+    for ci in range(len(cur)):
+        session_apply(m, c, w, ci, 0)
+    net = simnet.Net(m.handle, lambda k, d: [(1, "ok")])
+    out, snaps = [], []
+    with simnet.installed(net):
+        mc = simmachine.make_controller(net, n_tries=3, timeout=2.0)
+        for k, st in enumerate(c["steps"]):
+            for ci, ek in st["set"]:
+                session_apply(m, c, w, ci, ek)
+                cur[ci] = ek
+            snaps.append(list(cur))
+            if only is None or only == k:
+                out.append(guard(lambda: session_probe(mc, c, w, st, cur)))
+            else:
+                out.append(None)
+            if only == k:
+                break
+    return out, snaps
+
+
+def session_reqs(L, c, w, k, cur, impl):
+    """(model request, oracle request or None, oracle key) for step k with the chips at epochs `cur`"""
+    st = c["steps"][k]
+    ci = st["chip"]
+    ch = c["chips"][ci]
+    e = ch["epochs"][cur[ci]]
+    im = w["img"][(ci, cur[ci])]
+    mem = session_image(w, ci, cur[ci])
+    got = impl.get("ok") if impl else None
+    op = session_op(c, w, st, cur)
+    core = dict(status=e["status"], blocks=e["blocks"], diag=e["diag"])
+    okey = None
+    if op in ("iobuf", "iobuf_bytes"):
+        model, oracle, okey = L("iobuf", mem=mem, p=e["p"], fuel=len(e["blocks"]) + 2), L("core_ok", got_text=got, **core), "text"
+    elif op == "status":
+        model, oracle, okey = L("status", mem=mem, p=e["p"]), L("core_ok", got_status=got, **core), "status"
+    elif op == "diag":
+        model, oracle, okey = L("diag", mem=mem), L("core_ok", got_diag=got, **core), "diag"
+    elif op == "chip_info":
+        model, oracle = L("dec_info", **im["info"]), L("info_ok", state=e["info"], got=got)
+    elif op == "p2p":
+        model, oracle = L("p2p_table", mem=mem), L("p2p_ok", state=dict(e["p2p"], chips=[]), got=got)
+    elif op == "system_info":
+        others = [(c["chips"][j], c["chips"][j]["epochs"][cur[j]], w["img"][(j, cur[j])]) for j in range(len(cur))]
+        model = L("system_info", mem=mem, replies=[dict(i["info"], x=h["x"], y=h["y"]) for h, _, i in others])
+        oracle = L("sysinfo_ok", got=got,
+                   state=dict(e["p2p"], chips=[dict(state_only(ee["info"]), x=h["x"], y=h["y"]) for h, ee, _ in others]))
+    elif op == "sv":
+        want = {"iobuf_size": e["iobuf_size"], "vcpu_base": e["vcpu_base"],
+                "p2p_dims": e["p2p"]["dim_w"] * 256 + e["p2p"]["dim_h"]}
+        want.update({n: v for n, v in e["sv"]})
+        model, oracle = L("sv_field", mem=mem, name=st["name"]), L("val_ok", want=want[st["name"]], got=got)
+    else:
+        src = VCPU_NAMES[st["name"]]
+        want = im["core"]["status"][src] if isinstance(src, str) else im["core"]["status"][src[0]][src[1]]
+        model, oracle = L("vcpu_field", mem=mem, p=e["p"], name=st["name"]), L("val_ok", want=want, got=got)
+    if got is None:
+        oracle = None
+    return model, oracle, okey
+
+
+def session_model_norm(op, model):
+    if "ok" not in model:
+        return model
+    if op == "p2p":
+        return {"ok": sorted(model["ok"])}
+    if op == "system_info":
+        return {"ok": model["ok"]["sysinfo"]}
+    return model
+
+
+def session_verdict(r, okey):
+    return r is not None and (r[okey] if okey else r) is True
+
+
+def judge_session(ctx, c, w):
+    L = lambda op, **kw: dict(kw, suite="c14", op=op)  # noqa: E731
+    probed = set()
+    first_bad = None
+    for k, st in enumerate(c["steps"]):
+        cur = w["snaps"][k]
+        op = session_op(c, w, st, cur)
+        impl = w["impl"][k]
+        ctx.traces += 1
+        ctx.tag("session_op_" + op, "session_mut_%s" % st["mut"])
+        probed.add(st["chip"])
+        cmp(ctx, "session." + op, impl, session_model_norm(op, w[("sess", k, "model")]), c)
+        ok = "ok" in impl and session_verdict(w.get(("sess", k, "oracle")), w[("sess", k, "okey")])
+        if not ok and first_bad is None:
+            first_bad = k
+    ctx.tag("session_steps_%d" % len(c["steps"]), "session_chips_%d" % len(probed))
+    if first_bad is not None:
+        k = first_bad
+        st = c["steps"][k]
+        cur = w["snaps"][k]
+        op = session_op(c, w, st, cur)
+        impl = w["impl"][k]
+        ch = c["chips"][st["chip"]]
+        # the same probe by a fresh controller on the machine in the same state
+        fresh = run_session(c, w, only=k)[0][k]
+        _, oracle, okey = session_reqs(L, c, w, k, cur, fresh)
+        fresh_ok = "ok" in fresh and oracle is not None and session_verdict(ctx.lean([oracle])[0], okey)
+        before = ["%s(%d,%d)" % (session_op(c, w, s2, w["snaps"][j]), c["chips"][s2["chip"]]["x"],
+                                 c["chips"][s2["chip"]]["y"]) for j, s2 in enumerate(c["steps"][:k])]
+        what = "step %d: %s on chip (%d, %d) returned %.300r" % (k, op, ch["x"], ch["y"], impl)
+        if fresh_ok:
+            ctx.violation("probe-depends-on-earlier-probe",
+                          "%s - not the machine's values for that chip at that moment - after the probes %s on the same "
+                          "controller; a fresh controller making this single probe on the same machine state returns "
+                          "the machine's values %.200r" % (what, before, fresh), c)
+        elif "err" in impl:
+            ctx.violation("unexpected-error", what, c)
+        else:
+            ctx.violation(SESSION_KEYS[op], what + " - not the machine's values", c)
+    return len(probed) >= 2
+
+
 def eval_cases(ctx, cases):
     L = lambda op, **kw: dict(kw, suite="c14", op=op)  # noqa: E731
     # ---- stage 1: the Lean machine specification produces the bytes ------------------------
@@ -509,6 +828,9 @@ def eval_cases(ctx, cases):
             reqs.append(L("spec_core", **{f: c[f] for f in ("p", "vcpu_base", "iobuf_size", "status", "sw_top",
                                                                 "name16", "pad", "blocks", "diag")}))
             slots.append((i, "core_spec"))
+        elif k == "session":
+            for slot, req in session_spec_reqs(L, c):
+                reqs.append(req); slots.append((i, slot))
         elif k == "sver":
             if c["legacy"]:
                 reqs.append(L("spec_sver_legacy", **{f: c[f] for f in ("x", "y", "pcpu", "vcpu", "buf", "date",
@@ -519,7 +841,9 @@ def eval_cases(ctx, cases):
             slots.append((i, "reply"))
     work = [dict() for _ in cases]
     for (i, slot), r in zip(slots, ctx.lean(reqs)):
-        if isinstance(slot, tuple):
+        if isinstance(slot, tuple) and slot[0] == "img":
+            work[i].setdefault("img", {}).setdefault((slot[1], slot[2]), {})[slot[3]] = r
+        elif isinstance(slot, tuple):
             work[i].setdefault("replies", {})[slot[1]] = r
         else:
             work[i][slot] = r
@@ -527,6 +851,15 @@ def eval_cases(ctx, cases):
     reqs, slots = [], []
     for i, (c, w) in enumerate(zip(cases, work)):
         k = c["kind"]
+        if k == "session":
+            w["impl"], w["snaps"] = run_session(c, w)
+            for kk in range(len(c["steps"])):
+                model, oracle, okey = session_reqs(L, c, w, kk, w["snaps"][kk], w["impl"][kk])
+                reqs.append(model); slots.append((i, ("sess", kk, "model")))
+                w[("sess", kk, "okey")] = okey
+                if oracle is not None:
+                    reqs.append(oracle); slots.append((i, ("sess", kk, "oracle")))
+            continue
         ctx.traces += 1
         if k == "chip":
             rep = malformed_reply(w["reply"], c["malform"])
@@ -736,6 +1069,8 @@ def judge(ctx, c, w):
             ctx.violation("unexpected-error", "get_router_diagnostics raised %s" % w["impl_diag"]["err"], desc)
         elif not o["diag"]:
             ctx.violation("router-counters-wrong", "get_router_diagnostics returned %r" % (w["impl_diag"],), desc)
+    elif k == "session":
+        nontriv = judge_session(ctx, c, w)
     elif k == "sver":
         impl, model = w["impl"], w["model"]
         cmp(ctx, "dec_sver", impl, model, desc)
@@ -748,7 +1083,7 @@ def judge(ctx, c, w):
     ctx.case(desc, nontriv)
 
 
-def gen_cases(ctx, n_sys, n_big, n_direct, n_chip, n_core, n_sver):
+def gen_cases(ctx, n_sys, n_big, n_direct, n_chip, n_core, n_sver, n_session=0):
     rng = ctx.rng
     cases = []
     cases += [gen_system(rng, False) for _ in range(n_sys)]
@@ -757,6 +1092,7 @@ def gen_cases(ctx, n_sys, n_big, n_direct, n_chip, n_core, n_sver):
     cases += [gen_chip(rng) for _ in range(n_chip)]
     cases += [gen_core(rng) for _ in range(n_core)]
     cases += [gen_sver(rng) for _ in range(n_sver)]
+    cases += [gen_session(rng) for _ in range(n_session)]
     return cases
 
 
@@ -771,9 +1107,9 @@ def run(ctx):
         "at least one chip is listed in the probed P2P table (otherwise the code raises ValueError from max())"]
     k = 4 if ctx.extended else 1
     if ctx.quick:
-        cases = gen_cases(ctx, 220 * k, 6 * k, 150 * k, 400 * k, 150 * k, 200 * k)
+        cases = gen_cases(ctx, 220 * k, 6 * k, 150 * k, 400 * k, 150 * k, 200 * k, 250 * k)
     else:
-        cases = gen_cases(ctx, 4000 * k, 60 * k, 3000 * k, 8000 * k, 3000 * k, 4000 * k)
+        cases = gen_cases(ctx, 4000 * k, 60 * k, 3000 * k, 8000 * k, 3000 * k, 4000 * k, 5000 * k)
     for i in range(0, len(cases), 400):
         eval_cases(ctx, cases[i:i + 400])
 
